@@ -62,12 +62,23 @@ namespace c07
       || (kind == K_IDRS && c.excl("c07-idrs-zero-defect"));
     //  BiCGStab / RBiCGStab accept convergence after the half step without looking at min_iter
     const bool avoid_min_iter = (kind == K_BICGSTAB || kind == K_RBICGSTAB) && c.excl("c07-bicgstab-halfstep-min-iter");
-    //  (F)GMRES(k) counts the inner Krylov steps and then once more in _set_new_defect: a run stopped by max_iter reports
-    //  max_iter+1 iterations unless max_iter is a multiple of k
+    //  (F)GMRES(k) counts the inner Krylov steps and then once more in _set_new_defect: a run that meets max_iter inside the inner
+    //  loop performs and reports max_iter+1 iterations.  Where in a cycle the limit is met depends on the run (early exits of
+    //  the inner loop), so this class cannot be avoided by construction: with the finding switched off, exactly the comparison
+    //  num_iter <= max_iter is done with one iteration of slack for these two solvers; everything else is still checked.
     const bool avoid_gmres_overshoot = (kind == K_FGMRES || kind == K_GMRES) && c.excl("c07-gmres-maxiter-overshoot");
     //  BiCGStab(l), right-preconditioned variant: the final x := M^-1 y (and filter_cor) is applied to the whole iterate including
     //  the start vector, so correct() with a non-zero start vector / non-zero filter values returns a wrong vector as 'success'
     const bool avoid_right_correct = (kind == K_BICGSTABL) && c.excl("c07-bicgstabl-right-correct");
+    //  BiCGStab(l), right variant, judges convergence on the recurrence residual only: when the Krylov space is exhausted inside a
+    //  block (n <= l, degenerate spectrum / initial residual) the near-0/0 coefficients wreck the iterate but not the recurrence
+    //  residual, and 'success' is returned for a wrong vector (the left variant recomputes b - A x and is truthful)
+    const bool avoid_right_breakdown = (kind == K_BICGSTABL) && c.excl("c07-bicgstabl-right-false-success");
+    //  RGCR has no breakdown test: iterations forced beyond convergence (min_iter) normalise a rounding-noise vector (1/||q||),
+    //  the resulting directions violate q = A p, are recycled into later solves, and 'success' is reported for a wrong vector
+    //  same mechanism in PipePCG (recurrences for A p, A q ... instead of products): 1e18-sized iterate returned as 'success'.
+    //  Common root: _analyse_defect() returns 'progress' below min_iter even for a zero defect (only the initial defect has an exit)
+    const bool avoid_rgcr_forced = (kind == K_RGCR || kind == K_PIPEPCG) && c.excl("c07-forced-iterations-false-success");
     //  IDR(s) keeps _shadow_space_setup == true over done_symbolic()/init_symbolic() although the shadow vectors are re-allocated
     const bool avoid_idrs_reinit = (kind == K_IDRS) && c.excl("c07-idrs-reinit-shadow-space");
 
@@ -120,6 +131,13 @@ namespace c07
       if(kind == K_PCGNR) { static const int tab[3] = { P_NONE, P_JACOBI, P_SCALE }; sp.prec2 = tab[t.pick({3, 1, 1})]; sp.pomega2 = pom(sp.prec2); }
     }
 
+    if(avoid_right_breakdown && sp.variant == 1)
+    {
+      // the right variant is only generated where the Krylov space cannot be exhausted inside a block: generic spectrum and
+      // initial residual (forced below), enough free unknowns, no spectrum-collapsing preconditioner
+      bool gen_sys = sys.generic && !(have_filter && (sys.cls.find("lap") == 0 || sys.cls.find("convdiff") == 0));
+      if(!(gen_sys && n_int >= 3 * sp.dim + 2 && (sp.prec == P_NONE || sp.prec == P_SCALE))) sp.variant = 0;
+    }
     // ---- Richardson damping / Chebyshev fractions; rate certificates for the S3 claim
     double rate = -1.0;      // certified contraction factor per step (stationary methods); <0: none
     if(kind == K_RICH)
@@ -168,6 +186,8 @@ namespace c07
       SolveSpec s; s.correct = t.flag(1, 2);
       if(avoid_right_correct && sp.variant == 1) s.correct = false;
       int rc = t.pick({4, 3, 1, 1, 2});
+      const bool force_generic = avoid_right_breakdown && sp.variant == 1;
+      if(force_generic) rc = 0;
       SubTape vt(t.raw(), (size_t)(2 * n + 2), t.size); Tape& r = vt.t;   // vector entries: one choice expands to the values
       std::vector<double> xs((size_t)n, 0.0);
       const bool ints = sys.integer;
@@ -189,6 +209,7 @@ namespace c07
       {
         setv(tmp, s.b); lf.filter_rhs(tmp); s.b = getv(tmp);
         int xc = (rc == 1) ? t.pick({2, 2, 2, 1}) : t.pick({2, 2, 0, 1});
+        if(force_generic && xc > 1) xc = 1;
         switch(xc)
         {
         case 0: s.x0_cls = "zero"; s.x0.assign((size_t)n, 0.0); break;
@@ -258,8 +279,19 @@ namespace c07
       {
         // scope fact (ii): exact exhaustion of the Krylov space inside a block is a 0/0 breakdown of the method
         if(!generic) { claim.on = false; claim.why = "degenerate spectrum/rhs possible"; }
-        if(n_int < 3 * sp.dim + 2 && !((kind == K_FGMRES || kind == K_GMRES) && sp.dim > n_int && false)) { claim.on = false; claim.why = "n < 3*dim+2"; }
+        if(n_int < 3 * sp.dim + 2) { claim.on = false; claim.why = "n < 3*dim+2"; }
+        // Jacobi/SSOR/ILU collapse the spectrum where the (filtered) matrix decouples or ILU(0) is exact (isolated nodes, trees,
+        // tridiagonal): the Krylov space is exhausted after a few steps and the block ends in 0/0 (false alarm seen:
+        // BiCGStab(2)+ILU(0) on 9 free unknowns, aborted after 4 sweeps)
+        if(!(sp.prec == P_NONE || sp.prec == P_SCALE)) { claim.on = false; claim.why = "preconditioner may collapse the spectrum (block method)"; }
       }
+      // BiCG-type methods can break down (rho = 0) on structured nonsymmetric data, e.g. a triangular Toeplitz matrix with a unit
+      // rhs (false alarm seen: RBiCGStab on bidiag(-2,2), rhs e_1): convergence is claimed on SPD systems (where BiCG = CG) and
+      // on generic nonsymmetric data only
+      // (second false alarm: RBiCGStab + ILU(0) on the 2x3 Laplacian with rhs e_1 - the preconditioned operator A M^-1 is nonsymmetric
+      // and (r0, r1) = 0 exactly; a textbook BiCGStab replica breaks down the same way)
+      if((kind == K_BICGSTAB || kind == K_RBICGSTAB || kind == K_BICGSTABL || kind == K_IDRS) && !generic && !(sys.sym && (sp.prec == P_NONE || sp.prec == P_SCALE)))
+      { claim.on = false; claim.why = "BiCG-type method on structured nonsymmetric (preconditioned) data"; }
       if(bud > 60000) { claim.on = false; claim.why = "budget above cap"; bud = 60000; }
       {
         // the requested reduction must stay above the attainable accuracy u (||A|| ||x|| + ||b||) (start vectors that are
@@ -277,11 +309,11 @@ namespace c07
     {
       if(t.flag(3, 4)) { cfg.has_tol_rel = true; cfg.tol_rel = std::pow(10.0, -(1 + t.range(0, 11))); } else t.raw();
       double bsc = bnorm > 0 ? (double)bnorm : 1.0;
-      if(t.flag(1, 3)) { cfg.has_tol_abs = true; cfg.tol_abs = bsc * std::pow(10.0, -t.range(0, 10)); } else t.raw();
-      if(t.flag(1, 4)) { cfg.has_tol_abs_low = true; cfg.tol_abs_low = bsc * std::pow(10.0, -t.range(0, 10)); if(cfg.has_tol_abs) cfg.tol_abs_low = std::min(cfg.tol_abs_low, cfg.tol_abs); } else t.raw();
+      if(t.flag(1, 3)) { cfg.has_tol_abs = true; cfg.tol_abs = 0.7 * bsc * std::pow(10.0, -t.range(0, 10)); } else t.raw();
+      if(t.flag(1, 4)) { cfg.has_tol_abs_low = true; cfg.tol_abs_low = 0.3 * bsc * std::pow(10.0, -t.range(0, 10)); /* never exactly d0: the initial test is '<', the later one '<=' */ if(cfg.has_tol_abs) cfg.tol_abs_low = std::min(cfg.tol_abs_low, cfg.tol_abs); } else t.raw();
       cfg.max_iter = t.sized(1, 200, 6); cfg.min_iter = std::min(cfg.max_iter, t.range(0, 5));
       if(t.flag(1, 8)) cfg.min_iter = cfg.max_iter;       // defect-skipping class (min_iter >= max_iter)
-      if(avoid_min_iter) cfg.min_iter = 0;
+      if(avoid_min_iter || avoid_rgcr_forced) cfg.min_iter = 0;
       if(avoid_zero_def) { cfg.has_tol_abs_low = false; cfg.tol_abs_low = 0; }
       cfg.min_stag = t.pick({4, 1, 1, 1});
       { static const double sr[5] = { 0.95, 0.5, 0.99, 0.1, 1.0 }; int k = t.pick({3, 2, 1, 1, 1}); if(k) { cfg.has_stag_rate = true; cfg.stag_rate = sr[k]; } }
@@ -289,8 +321,6 @@ namespace c07
       if(t.flag(1, 6)) { cfg.has_div_abs = true; cfg.div_abs = bsc * std::pow(10.0, t.range(0, 3)); } else t.raw();
       cfg.skip = !t.flag(1, 4); cfg.plot = t.pick({8, 1, 1, 1});
     }
-
-    if(avoid_gmres_overshoot) { cfg.max_iter = ((cfg.max_iter + sp.dim - 1) / sp.dim) * sp.dim; if(conv_mode) claim.budget = cfg.max_iter; }
 
     // ---- history
     int init_style = t.pick({2, 1});
@@ -398,7 +428,7 @@ namespace c07
         LV tmp((Index)n); setv(tmp, S.x0); VF_CHECK(bytes(tmp) == R.xbytes, "S4 " << tag << ": correct() from the exact solution changed the iterate");
       }
       // S2
-      check_stop_logic(L, R, kind, skip_class, xfin, c);
+      check_stop_logic(L, R, kind, skip_class, xfin, avoid_gmres_overshoot ? 1ul : 0ul);
       // S1
       LD allowed = 0, slack = 0, rn = 0;
       if(R.status == (int)Status::success)
@@ -408,13 +438,20 @@ namespace c07
         LD eps2 = (LD)std::numeric_limits<DT>::epsilon() * (LD)std::numeric_limits<DT>::epsilon();
         allowed = std::min((LD)L.tol_abs, std::max((LD)L.tol_rel * d0, (LD)L.tol_abs_low));
         if(R.iters == 0) allowed = std::max(allowed, std::max((LD)L.tol_abs_low, eps2));
-        slack = 8.0L * (LD)(R.iters + 1) * (LD)n * u * (Afro * xn + bn) + 16.0L * (LD)std::numeric_limits<DT>::min();
+        // rounding drift between the recurrence residual and b - A x scales with the largest iterate met on the way (Greenbaum 1997:
+        // ||b - A x_k - r_k|| <= c k u ||A|| max_j ||x_j||); the start vector is the available bound for it (false alarm seen: GroppPCG,
+        // zero rhs, ||x0|| ~ 1e3, ||A|| ~ 1e4, tol_abs = 1e-10, i.e. 17 digits below the initial defect)
+        slack = 8.0L * (LD)(R.iters + 1) * (LD)n * u * (Afro * std::max(xn, x0n) + bn) + 16.0L * (LD)std::numeric_limits<DT>::min();
         VF_CHECK(rn <= allowed * (1.0L + 1e-6L) + slack, "S1 " << tag << ": status success after " << R.iters << " iterations but ||b-Ax|| = " << (double)rn << " > accepted " << (double)allowed << " (+ rounding slack " << (double)slack
           << "); d0 " << (double)d0 << " reported final defect " << (double)R.defF);
       }
       // S3
       if(conv_mode && claim.on && &S == &SA)
       {
+        // block methods: once the Krylov space of the free unknowns is (nearly) exhausted the 0/0 breakdown is inherent (scope fact ii)
+        const unsigned long steps = R.iters * (unsigned long)((kind == K_BICGSTABL) ? sp.dim : 1);
+        const bool exhausted = block_method(kind) && R.status == (int)Status::aborted && !xfin && (long)steps + sp.dim + 1 >= (long)n_int;
+        if(exhausted) return;
         VF_CHECK(R.status == (int)Status::success, "S3 " << tag << ": in-scope system (kappa<=" << kap << ", budget " << claim.budget << " iterations, tol_rel " << cfg.tol_rel << ") ended with " << status_name(R.status)
           << " after " << R.iters << " iterations, defect " << (double)R.def0 << " -> " << (double)R.defF);
         auto xr = lu.solve(b); LD en = 0, xrn = norm2(xr); for(int i = 0; i < n; ++i) en += (R.x[(size_t)i] - xr[(size_t)i]) * (R.x[(size_t)i] - xr[(size_t)i]); en = sqrtl(en);
